@@ -9,7 +9,7 @@ are exactly the prefix `used`, and what it hands to its caller is the untouched 
 `ConsRel ts a` — the run `a` (on the cursor `ts`), if it succeeds with `(v, r)`, has `Sfx r ts`.  Stated as a relation on the
 run so that `grind` instantiates it once per call that occurs in the unfolded hypothesis (`grind_pattern … => f … ts`).
 
-Every proof of the generated files has the shape `unfold f at h; (repeat' split at h) <;> grind`: the hypothesis about the
+Every proof of the generated files has the shape `unfold f at h; split_run <;> grind`: the hypothesis about the
 run is split completely first, `grind` never sees a `match` (two modules that let `grind` see the same `match` both emit its
 `congr_eq` lemma and cannot be imported together).
 -/
@@ -18,6 +18,15 @@ set_option linter.unusedSectionVars false
 set_option linter.unusedVariables false
 open Lex
 namespace PM
+
+/-- one step of the complete case analysis of a run: `split at h` gives up on the long `if` chains of the statement level
+(its `simp` call exceeds the step limit on the structure updates), so a leading `if` is taken apart by this lemma -/
+theorem ite_split {α : Type} {c : Prop} [Decidable c] {a b x : α} (h : (if c then a else b) = x) : (c ∧ a = x) ∨ (¬ c ∧ b = x) := by
+  by_cases hc : c <;> simp_all
+set_option hygiene false in
+/-- split the hypothesis `h` about a run completely (every `if`, every `match`) -/
+macro "split_run" : tactic =>
+  `(tactic| repeat' (first | split at h | (with_reducible have h' := ite_split h); clear h; rcases h' with ⟨hc, h⟩ | ⟨hc, h⟩))
 
 /-- `r` is the rest of the cursor `ts` after a prefix of it has been consumed -/
 def Sfx (r ts : List Tok) : Prop := ∃ used, ts = used ++ r
@@ -162,47 +171,47 @@ theorem multiAliasLoop_cons : ∀ g acc ts, ConsRel ts (multiAliasLoop g acc ts)
   | succ g ih =>
     intro acc ts v r h
     unfold multiAliasLoop at h
-    (repeat' split at h) <;> grind
+    split_run <;> grind
 grind_pattern multiAliasLoop_cons => multiAliasLoop g acc ts
 theorem pMultiAlias_cons (ts : List Tok) : ConsRel ts (pMultiAlias ts) := by
   intro v r h
   unfold pMultiAlias at h
-  (repeat' split at h) <;> grind
+  split_run <;> grind
 grind_pattern pMultiAlias_cons => pMultiAlias ts
 theorem pFuncName_cons (ts : List Tok) : ConsRel ts (pFuncName ts) := by
   intro v r h
   unfold pFuncName at h
-  (repeat' split at h) <;> grind
+  split_run <;> grind
 grind_pattern pFuncName_cons => pFuncName ts
 theorem pAlias_cons (ts : List Tok) : ConsRel ts (pAlias ts) := by
   intro v r h
   unfold pAlias at h
-  (repeat' split at h) <;> grind
+  split_run <;> grind
 grind_pattern pAlias_cons => pAlias ts
 theorem pTableName_cons (ts : List Tok) : ConsRel ts (pTableName ts) := by
   intro v r h
   unfold pTableName at h
-  (repeat' split at h) <;> grind
+  split_run <;> grind
 grind_pattern pTableName_cons => pTableName ts
 theorem pRowItem_cons (ts : List Tok) : ConsRel ts (pRowItem ts) := by
   intro v r h
   unfold pRowItem at h
-  (repeat' split at h) <;> grind
+  split_run <;> grind
 grind_pattern pRowItem_cons => pRowItem ts
 theorem pWindowRow_cons (ts : List Tok) : ConsRel ts (pWindowRow ts) := by
   intro v r h
   unfold pWindowRow at h
-  (repeat' split at h) <;> grind
+  split_run <;> grind
 grind_pattern pWindowRow_cons => pWindowRow ts
 theorem orderTail_cons (e : Ast.Expr) (ts : List Tok) : ConsRel ts (orderTail e ts) := by
   intro v r h
   unfold orderTail at h
-  (repeat' split at h) <;> grind
+  split_run <;> grind
 grind_pattern orderTail_cons => orderTail e ts
 theorem pLimit_cons (ts : List Tok) : ConsRel ts (pLimit ts) := by
   intro v r h
   unfold pLimit at h
-  (repeat' split at h) <;> grind
+  split_run <;> grind
 grind_pattern pLimit_cons => pLimit ts
 
 end PM
